@@ -29,3 +29,20 @@ def match_trace(prop, machine, cfg, rec):
         if all(re.search(rx, text) for rx in sig.get("regex", [])):
             return {"id": f["id"], "what": f["what"], "where": "trace %s/%s" % (machine, cfg)}
     return None
+
+def probes(prop):
+    return [f for f in load() if prop in f["properties"] and f.get("probe")]
+
+def run_probe(f, core, bins_builder, workdir):
+    """run the finding's probe script against the real code; returns the list of configurations on which it still reproduces"""
+    import os, re
+    pr = f["probe"]; hit = []
+    d = core.load_def(pr["machine"])
+    cfgs = [c for c in pr["configs"] if core.supported(d, c)]
+    bins = bins_builder([(pr["machine"], c) for c in cfgs])
+    for c in cfgs:
+        tp = os.path.join(workdir, "probe_%s_%s.ndjson" % (f["id"], c))
+        rc, err = core.run_driver(bins[(pr["machine"], c)], pr["script"], tp)
+        if rc != 0: continue
+        if re.search(pr["regex"], open(tp).read()): hit.append(c)
+    return hit
